@@ -4,6 +4,7 @@ import (
 	"fmt"
 	"go/token"
 	"go/types"
+	"strings"
 
 	"golang.org/x/tools/go/ssa"
 )
@@ -32,6 +33,7 @@ func checkC15(c *Ctx) {
 	c.Rule("R5", "hysteresis: mirror-image counters, setters reset both, every outcome counted once, thresholds paired with marks")
 	c.Rule("R6", "notification identity: markRemoved on the stored object of every removed address")
 	c.Rule("R7", "overwrite: the previous object of an address is purged from the healthy tiers before the member map is overwritten")
+	c.Rule("R9", "the healthy-hosts snapshot handed out by Healthy() is never written or sorted in place by a reader")
 	c.Rule("R8", "tier identity: the healthy tiers are written and purged only with the object the member map stores for the address")
 
 	all := p.Field(hostPkg, "Set", "all")
@@ -66,6 +68,7 @@ func checkC15(c *Ctx) {
 	c.Expect("R2", 4)
 
 	checkTierIdentity(c, "R8")
+	checkSnapshotImmutable(c, "R9")
 
 	// ---------------- R3
 	if h := p.Func(hostPkg, "(*Set).healthy"); h == nil {
@@ -834,4 +837,147 @@ func checkTierIdentity(c *Ctx, rule string) {
 // paramOnlyForwarded: fn is itself a tier mutator wrapper whose slice parameter is only passed on.
 func (p *Prog) paramOnlyForwarded(fn *ssa.Function, prm *ssa.Parameter, mutators map[*ssa.Function]bool) bool {
 	return mutators[fn]
+}
+
+// checkSnapshotImmutable (C15.R9, C18.R5): Healthy() hands out the cached slice itself, shared by every reader (the
+// balancers, the SCAN node order, the slot refresh). Nobody may write its elements - in place sorting or shuffling by
+// one reader reorders what every other reader sees. Every store into a []*Host element is traced back to where the
+// slice came from (through locals, captured variables and module functions that return the snapshot).
+func checkSnapshotImmutable(c *Ctx, rule string) {
+	p := c.P
+	healthy := p.Func(hostPkg, "(*Set).Healthy")
+	if healthy == nil {
+		c.Unresolved(rule, "(*Set).Healthy")
+		return
+	}
+	// module functions that return the snapshot unchanged
+	returnsSnap := map[*ssa.Function]bool{healthy: true}
+	for changed := true; changed; {
+		changed = false
+		for _, fn := range p.SrcFns {
+			if returnsSnap[fn] || p.isTestFn(fn) || !isModFn(fn) {
+				continue
+			}
+			eachInstr(fn, func(_ *ssa.BasicBlock, _ int, in ssa.Instruction) {
+				r, ok := in.(*ssa.Return)
+				if !ok || len(r.Results) != 1 {
+					return
+				}
+				if call, ok := r.Results[0].(*ssa.Call); ok {
+					for _, g := range p.callees(call) {
+						if returnsSnap[g] && !returnsSnap[fn] {
+							returnsSnap[fn] = true
+							changed = true
+						}
+					}
+				}
+			})
+		}
+	}
+	var fromSnap func(v ssa.Value, d int) bool
+	fromSnap = func(v ssa.Value, d int) bool {
+		if d > 8 {
+			return false
+		}
+		switch x := v.(type) {
+		case *ssa.Call:
+			for _, g := range p.callees(x) {
+				if returnsSnap[g] {
+					return true
+				}
+			}
+		case *ssa.Slice:
+			return fromSnap(x.X, d+1)
+		case *ssa.Phi:
+			for _, e := range x.Edges {
+				if fromSnap(e, d+1) {
+					return true
+				}
+			}
+		case *ssa.ChangeType:
+			return fromSnap(x.X, d+1)
+		case *ssa.UnOp:
+			if x.Op != token.MUL {
+				return false
+			}
+			cell := x.X
+			if fv, ok := cell.(*ssa.FreeVar); ok {
+				fn := fv.Parent()
+				for i, q := range fn.FreeVars {
+					if q != fv || fn.Parent() == nil {
+						continue
+					}
+					found := false
+					eachInstr(fn.Parent(), func(_ *ssa.BasicBlock, _ int, in ssa.Instruction) {
+						if mc, ok := in.(*ssa.MakeClosure); ok && mc.Fn == ssa.Value(fn) && i < len(mc.Bindings) {
+							cell = mc.Bindings[i]
+							found = true
+						}
+					})
+					if !found {
+						return false
+					}
+				}
+			}
+			if al, ok := cell.(*ssa.Alloc); ok {
+				for _, r := range *al.Referrers() {
+					if st, ok := r.(*ssa.Store); ok && st.Addr == ssa.Value(al) && fromSnap(st.Val, d+1) {
+						return true
+					}
+				}
+			}
+		}
+		return false
+	}
+	n, nbad := 0, 0
+	for _, fn := range p.SrcFns {
+		if p.isTestFn(fn) || !isModFn(fn) {
+			continue
+		}
+		eachInstr(fn, func(_ *ssa.BasicBlock, _ int, in ssa.Instruction) {
+			// consumers of the snapshot: one obligation per function that obtains it
+			if call, ok := in.(*ssa.Call); ok {
+				for _, g := range p.callees(call) {
+					if returnsSnap[g] && !returnsSnap[fn] {
+						n++
+					}
+				}
+				// handing the snapshot to an in-place sorter / shuffler
+				if g := calleeFn(call.Common()); g != nil && g.Pkg != nil && (g.Pkg.Pkg.Path() == "sort" || g.Pkg.Pkg.Path() == "slices") && len(call.Call.Args) > 0 {
+					a := call.Call.Args[0]
+					if mi, ok := a.(*ssa.MakeInterface); ok {
+						a = mi.X
+					}
+					if cv, ok := a.(*ssa.ChangeType); ok {
+						a = cv.X
+					}
+					if fromSnap(a, 0) {
+						nbad++
+						c.Fail(rule, fmt.Sprintf("snapshot sorted in place in %s", fnKey(fn)), in.Pos(), "the shared healthy-hosts snapshot is handed to an in-place sort: every other reader (balancers, SCAN node order) sees the elements move")
+					}
+				}
+			}
+			st, ok := in.(*ssa.Store)
+			if !ok {
+				return
+			}
+			ia, ok := st.Addr.(*ssa.IndexAddr)
+			if !ok {
+				return
+			}
+			if sl, ok := ia.X.Type().Underlying().(*types.Slice); !ok || !strings.HasSuffix(types.TypeString(sl.Elem(), nil), "host.Host") {
+				return
+			}
+			if fromSnap(ia.X, 0) {
+				nbad++
+				c.Fail(rule, fmt.Sprintf("element of the snapshot written in %s", fnKey(fn)), in.Pos(), "an element of the slice returned by Healthy() is overwritten: that slice is the cache shared by all readers, so the order every balancer and the SCAN node index rely on changes under them (a SCAN in progress continues on a different node)")
+			}
+		})
+	}
+	if nbad == 0 {
+		c.OK(rule, "no writer of the healthy-hosts snapshot", healthy.Pos(), fmt.Sprintf("%d call sites obtain the snapshot, none stores into it or sorts it in place", n))
+	}
+	if n == 0 {
+		c.Unresolved(rule, "no reader of Healthy()")
+	}
 }
